@@ -132,12 +132,32 @@ func isHelper(g *ssa.Function) bool {
 		return v
 	}
 	v := func() bool {
-		if g.Parent() != nil || g.Synthetic != "" || len(g.Blocks) == 0 || ht.anchors[g] || !gp.inMod(g) {
+		if g.Synthetic != "" || len(g.Blocks) == 0 || ht.anchors[g] || !gp.inMod(g) {
 			return false
+		}
+		if g.Parent() != nil {
+			// a local function (`f := func(…) {…}`) that is called in several places and used for
+			// nothing else is a helper like any other; a literal that is called on the spot (one
+			// site) is part of its surrounding function and handled there
+			return localFunction(g)
 		}
 		name := g.Name()
 		if ruleNames[name] {
-			return false // identified by name in some rule
+			// identified by name in some rule — when it lives in a package in which the tree the
+			// rules were written against has a function of that name
+			pkgs, known := ruleNamePkgs[name]
+			if !known {
+				return false
+			}
+			pp := strings.TrimPrefix(strings.TrimPrefix(pkgPathOfFn(g), modPath), "/")
+			if pp == "" {
+				pp = "."
+			}
+			for _, q := range pkgs {
+				if q == pp {
+					return false
+				}
+			}
 		}
 		if name == "init" || strings.HasPrefix(name, "init#") || name == "main" {
 			return false
@@ -161,6 +181,36 @@ func isHelper(g *ssa.Function) bool {
 	}()
 	ht.memo[g] = v
 	return v
+}
+
+// localFunction: the function literal g is created once, and every use of that value is a
+// direct call of it — at least two of them.
+func localFunction(g *ssa.Function) bool {
+	parent := g.Parent()
+	if parent == nil {
+		return false
+	}
+	n, calls := 0, 0
+	for _, b := range parent.Blocks {
+		for _, in := range b.Instrs {
+			mc, ok := in.(*ssa.MakeClosure)
+			if !ok || mc.Fn != ssa.Value(g) {
+				continue
+			}
+			n++
+			for _, ref := range *mc.Referrers() {
+				c, isCall := ref.(ssa.CallInstruction)
+				if !isCall || c.Common().Value != ssa.Value(mc) {
+					if _, isDbg := ref.(*ssa.DebugRef); isDbg {
+						continue
+					}
+					return false
+				}
+				calls++
+			}
+		}
+	}
+	return n == 1 && calls >= 2
 }
 
 // helperCallSite: the call site relative to which parameters of helper g are resolved.
@@ -203,6 +253,16 @@ func throughHelper(v ssa.Value) (ssa.Value, bool) {
 	case *ssa.Parameter:
 		g := x.Parent()
 		if !isHelper(g) {
+			// a function literal that is called on the spot, once: its parameter is the argument
+			if g != nil && g.Parent() != nil && ht.enabled {
+				if site := soleDirectCall(g); site != nil {
+					for i, prm := range g.Params {
+						if prm == x && i < len(site.Call.Args) {
+							return site.Call.Args[i], true
+						}
+					}
+				}
+			}
 			return nil, false
 		}
 		site := helperCallSite(g)
@@ -262,6 +322,47 @@ func throughHelper(v ssa.Value) (ssa.Value, bool) {
 		}
 	}
 	return nil, false
+}
+
+// soleDirectCall: the only place where the function literal g is created, when it is called
+// right there (`func(x T) { … }(arg)`) and used for nothing else.
+var soleCallMemo = map[*ssa.Function]*ssa.Call{}
+var soleCallDone = map[*ssa.Function]bool{}
+
+func soleDirectCall(g *ssa.Function) *ssa.Call {
+	if soleCallDone[g] {
+		return soleCallMemo[g]
+	}
+	soleCallDone[g] = true
+	parent := g.Parent()
+	if parent == nil {
+		return nil
+	}
+	var site *ssa.Call
+	n := 0
+	for _, b := range parent.Blocks {
+		for _, in := range b.Instrs {
+			mc, ok := in.(*ssa.MakeClosure)
+			if !ok || mc.Fn != ssa.Value(g) {
+				continue
+			}
+			n++
+			refs := *mc.Referrers()
+			if len(refs) != 1 {
+				return nil
+			}
+			c, isCall := refs[0].(*ssa.Call)
+			if !isCall || c.Call.Value != ssa.Value(mc) {
+				return nil
+			}
+			site = c
+		}
+	}
+	if n != 1 {
+		return nil
+	}
+	soleCallMemo[g] = site
+	return site
 }
 
 // helpersCalledFrom lists the transparent helpers called (statically) from fs, transitively.
@@ -360,6 +461,9 @@ func virtualCallsTo(root *ssa.Function, target *ssa.Function) []vcall {
 			return
 		}
 		for _, g := range plainWithAnons(f) {
+			if g != f && isHelper(g) {
+				continue // a local function: entered through its calls
+			}
 			for _, b := range g.Blocks {
 				for _, in := range b.Instrs {
 					c, ok := in.(ssa.CallInstruction)
@@ -421,6 +525,13 @@ func blockIn(f *ssa.Function, in ssa.Instruction) *ssa.BasicBlock {
 	g := in.Parent()
 	b := in.Block()
 	for hops := 0; hops < 5 && g != nil && g != f; hops++ {
+		if g.Parent() != nil && isHelper(g) {
+			// a local function: the block of its call
+			if site := helperCallSite(g); site != nil {
+				b, g = site.Block(), site.Parent()
+				continue
+			}
+		}
 		top := g
 		for top.Parent() != nil {
 			top = top.Parent()
